@@ -535,9 +535,14 @@ pub fn worker(args: &[String]) -> i32 {
             }
             let mut s = sodium::ss_init_pull(&fx.stream_header, &fx.stream_key);
             let w = sodium::ss_push(&mut s, &vec![0x6du8; mlen], None, tag);
-            for t in ts.iter().filter(|t| (t.name.starts_with("secretstream_pull") || t.name.starts_with("DryocStream")) && !t.name.contains("AD")) {
+            // the same message authenticated together with the associated data the "(with AD)"
+            // targets present
+            let mut s2 = sodium::ss_init_pull(&fx.stream_header, &fx.stream_key);
+            let w_ad = sodium::ss_push(&mut s2, &vec![0x6du8; mlen], Some(b"ad"), tag);
+            for t in ts.iter().filter(|t| t.name.starts_with("secretstream_pull") || t.name.starts_with("DryocStream")) {
                 note(&format!("{} authentic tag byte {:#x} mlen {}", t.name, tag, mlen));
-                let r = (t.call)(&fx, &w);
+                let w = if t.name.contains("AD") { &w_ad } else { &w };
+                let r = (t.call)(&fx, w);
                 let oc = match &r {
                     Err(_) => "panic",
                     Ok(true) => "authentic-any-tag-Ok",
@@ -545,7 +550,7 @@ pub fn worker(args: &[String]) -> i32 {
                 };
                 st.eval(&(&t.name, "tag", tag, mlen), true, oc);
                 if oc != "authentic-any-tag-Ok" {
-                    st.fail(Fail { check: "C04.total".into(), signature: format!("C04/{}/{}/authentic-unknown-tag", t.name, if r.is_err() { "panic" } else { "rejected" }), what: format!("{} on an authentic message with tag byte {:#x}: {:?}", t.name, tag, r), case: json!({"target": t.name, "input": hx(&w)}) });
+                    st.fail(Fail { check: "C04.total".into(), signature: format!("C04/{}/{}/authentic-unknown-tag", t.name, if r.is_err() { "panic" } else { "rejected" }), what: format!("{} on an authentic message with tag byte {:#x}: {:?}", t.name, tag, r), case: json!({"target": t.name, "input": hx(w)}) });
                 }
             }
         }
